@@ -621,44 +621,65 @@ func c18Gen(r *vRand) c18Case {
 		cs.Res = []string{"x", "y/1", "z"}
 	}
 	cs.Res = cs.Res[:r.Range(1, 3)]
-	n := r.Range(6, 40)
-	// a small pool of "hot" brokers/resources makes interleavings on one lease likely
+	// A schedule is a random merge of small scripts (an Acquire call = 4 steps, a Release
+	// call = 2 steps, single fault events), so calls interleave at etcd-operation
+	// granularity; most scripts work on one "hot" resource.
 	hotR := r.Intn(len(cs.Res))
-	for i := 0; i < n; i++ {
+	var scripts [][]c18Ev
+	ns := r.Range(3, 10)
+	for i := 0; i < ns; i++ {
 		b := r.Intn(cs.NB)
 		res := hotR
 		if r.Chance(25) {
 			res = r.Intn(len(cs.Res))
 		}
-		var k string
+		rel := []c18Ev{{K: "rellocal", B: b, R: res}, {K: "reldelete", B: b, R: res}}
 		switch x := r.Intn(100); {
-		case x < 22:
-			k = "acqbegin"
-		case x < 42:
-			k = "acqtxn"
-		case x < 50:
-			k = "reacqtxn"
-		case x < 66:
-			k = "commit"
-		case x < 76:
-			k = "rellocal"
+		case x < 40:
+			scripts = append(scripts, c18Full(b, res))
+		case x < 58:
+			scripts = append(scripts, rel)
+		case x < 72:
+			scripts = append(scripts, c18Cat(c18Full(b, res), rel))
+		case x < 82:
+			scripts = append(scripts, []c18Ev{{K: "expire", B: b, R: res}})
 		case x < 86:
-			k = "reldelete"
-		case x < 92:
-			k = "expire"
-		case x < 94:
-			k = "releaseall"
-		case x < 97:
-			k = "restart"
+			scripts = append(scripts, []c18Ev{{K: "releaseall", B: b, R: res}})
+		case x < 93:
+			scripts = append(scripts, []c18Ev{{K: "restart", B: b, R: res}})
 		default:
-			cs.Evs = append(cs.Evs, c18Ev{K: "orphan", L: r.Range(1, 4)})
-			continue
+			scripts = append(scripts, []c18Ev{{K: "orphan", L: r.Range(1, 4)}})
 		}
-		cs.Evs = append(cs.Evs, c18Ev{K: k, B: b, R: res})
-		// often drive a freshly started acquire to completion
-		if k == "acqbegin" && r.Chance(55) {
-			cs.Evs = append(cs.Evs, c18Ev{K: "acqtxn", B: b, R: res}, c18Ev{K: "reacqtxn", B: b, R: res}, c18Ev{K: "commit", B: b, R: res})
+	}
+	for {
+		live := 0
+		for _, sc := range scripts {
+			if len(sc) > 0 {
+				live++
+			}
 		}
+		if live == 0 {
+			break
+		}
+		k := r.Intn(live)
+		for i := range scripts {
+			if len(scripts[i]) == 0 {
+				continue
+			}
+			if k == 0 {
+				cs.Evs = append(cs.Evs, scripts[i][0])
+				scripts[i] = scripts[i][1:]
+				break
+			}
+			k--
+		}
+	}
+	// noise: single steps at random positions (mostly disabled ones are dropped at execution)
+	kinds := []string{"acqbegin", "acqtxn", "reacqtxn", "commit", "rellocal", "reldelete"}
+	for n := r.Range(0, 4); n > 0; n-- {
+		ev := c18Ev{K: kinds[r.Intn(len(kinds))], B: r.Intn(cs.NB), R: r.Intn(len(cs.Res))}
+		pos := r.Intn(len(cs.Evs) + 1)
+		cs.Evs = append(cs.Evs[:pos], append([]c18Ev{ev}, cs.Evs[pos:]...)...)
 	}
 	return cs
 }
@@ -808,7 +829,7 @@ func c18Tags(evs []c18Ev, obs []c18Obs) map[string]bool {
 }
 
 func TestVerifC18(t *testing.T) {
-	rep := vNewReport("C18", "generated schedules (6-100 events over 2-3 brokers and 1-3 resources; plain, partition and group lease managers) of acquire steps / release halves / session expiry / ReleaseAll / restart / orphan-lease expiry executed on real LeaseManagers against one embedded etcd; non-trivial = a successful acquire plus an etcd step interleaved between the two halves of a Release, or a session expiry / restart; distinct = distinct executed event lists")
+	rep := vNewReport("C18", "generated schedules (random merges of 3-10 Acquire / Release / fault scripts plus noise steps, up to ~60 events, over 2-3 brokers and 1-3 resources; plain, partition and group lease managers) of acquire steps / release halves / session expiry / ReleaseAll / restart / orphan-lease expiry executed on real LeaseManagers against one embedded etcd; non-trivial = a successful acquire plus an etcd step interleaved between the two halves of a Release, or a session expiry / restart; distinct = distinct executed event lists")
 	endpoints := testutil.StartEmbeddedEtcd(t)
 	root, err := clientv3.New(clientv3.Config{Endpoints: endpoints, DialTimeout: 5 * time.Second, Logger: zap.NewNop()})
 	if err != nil {
@@ -858,7 +879,7 @@ func TestVerifC18(t *testing.T) {
 			runOne(cs)
 		}
 		r := vNewRand(vSeed())
-		n := vN(250, 2500)
+		n := vN(300, 3000)
 		for i := 0; i < n; i++ {
 			runOne(c18Gen(r.Fork()))
 		}
